@@ -157,3 +157,22 @@ def getkey_result(c, n, pad):
     y = c.call(_client._process_get_key_result, resp)
     c.check(all_of([seq_eq(c.call(y.pack), env), struct_eq(y.l2_key, k2), y.l1 == ints["l1"]]), "getkey result: declared auth padding stripped, envelope extracted")
     return len(stub)
+
+
+@harness(P, per_job=True, params=[dict(rk=True), dict(rk=False)], max_steps=200000,
+         bounds="GetKey request with a target SD whose LENGTH is a solver variable over [0, 2^24) (opaque content), root key id present/absent, L0/L1/L2 symbolic: the NDR64 stub equals the "
+         "reference encoding (length fields, alignment padding to 8) and decodes back, for every length", outside="SD lengths of 2^24 and more",
+         must_reach=("symbolic length: NDR64 request stub", "symbolic length: decode(encode(x)) == x"))
+def getkey_symlen(c, rk):
+    sd, L = c.blob("sd", 0, (1 << 24) - 1)
+    l0, l1, l2 = (c.int(k, -(1 << 31), (1 << 31) - 1) for k in ("l0", "l1", "l2"))
+    rku, rkb = U(c, "rkid") if rk else (None, None)
+    x = _gkdi.GetKey(sd, rku, l0, l1, l2)
+    b = c.call(x.pack)
+    pad = c.concretize((-L) % 8) if not isinstance(L, int) else (-L) % 8
+    ref = refs.cat(refs.le(L, 4), bytes(4), refs.le(L, 8), sd, bytes(pad), (refs.cat(refs.le(0x00020000, 8), rkb) if rk else bytes(8)), refs.le(l0, 4, True), refs.le(l1, 4, True), refs.le(l2, 4, True))
+    c.check(b == ref, "symbolic length: NDR64 request stub")
+    y = c.call(_gkdi.GetKey.unpack, b)
+    c.check(all_of([y.target_sd == sd, y.l0_key_id == l0, y.l1_key_id == l1, y.l2_key_id == l2, (y.root_key_id is None) if not rk else struct_eq(y.root_key_id, rku)]),
+            "symbolic length: decode(encode(x)) == x")
+    return True
